@@ -285,7 +285,7 @@ def c12(tier):
     sfx = "quick" if q else "thorough"
     parts = [
         dict(mc=("MC_C12.tla", "MC_C12_core_%s.cfg" % sfx),
-             conc=lambda progs, seed: concretise(progs, "C12c", tier, seed, 3 if q else 2)),
+             conc=lambda progs, seed: concretise(progs, "C12c", tier, seed, 3 if q else 1)),
         dict(mc=("MC_C12.tla", "MC_C12_nego_%s.cfg" % sfx),
              conc=lambda progs, seed: concretise(progs, "C12n", tier, seed + 1, 1)),
     ]
